@@ -434,3 +434,81 @@ func (s *Sim) chanAcquire(t *Task, chs []any) {
 		}
 	}
 }
+
+// Cond replaces sync.Cond. Which waiter Signal wakes is a recorded choice (the
+// documentation of sync.Cond promises "one goroutine", not which).
+type Cond struct {
+	L       Locker
+	waiters []*condWaiter
+	vc      vclock
+}
+
+type condWaiter struct {
+	t     *Task
+	woken bool
+}
+
+// NewCond mirrors sync.NewCond.
+func NewCond(l Locker) *Cond { return &Cond{L: l} }
+
+// Wait unlocks c.L, blocks until woken by Signal or Broadcast, and locks c.L again.
+func (c *Cond) Wait() {
+	s := active()
+	if s == nil {
+		if S != nil {
+			return
+		}
+		panic("simrt: Cond.Wait by the only goroutine (nobody can signal: self-deadlock)")
+	}
+	t := s.cur
+	w := &condWaiter{t: t}
+	c.waiters = append(c.waiters, w) // registered before the unlock, as in sync.Cond
+	c.L.Unlock()
+	for !w.woken {
+		s.block(t, "Cond.Wait")
+	}
+	t.vc.join(c.vc)
+	c.L.Lock()
+}
+
+func (c *Cond) release(s *Sim, i int) {
+	w := c.waiters[i]
+	c.waiters = append(c.waiters[:i], c.waiters[i+1:]...)
+	w.woken = true
+	s.makeRunnable(w.t)
+}
+
+// Signal wakes one waiting task, if there is any.
+func (c *Cond) Signal() {
+	s := active()
+	if s == nil {
+		return
+	}
+	t := s.cur
+	s.park(t, whyLock)
+	c.vc.join(t.vc)
+	t.vc.tick(t.ID)
+	if len(c.waiters) == 0 {
+		return
+	}
+	i := 0
+	if len(c.waiters) > 1 {
+		i = Draw(len(c.waiters))
+	}
+	c.release(s, i)
+}
+
+// Broadcast wakes all waiting tasks.
+func (c *Cond) Broadcast() {
+	s := active()
+	if s == nil {
+		return
+	}
+	t := s.cur
+	s.park(t, whyLock)
+	c.vc.join(t.vc)
+	t.vc.tick(t.ID)
+	for len(c.waiters) > 0 {
+		c.release(s, 0)
+	}
+}
